@@ -7,11 +7,13 @@ from pyvc.native import *      # noqa: F401,F403  (contract-language builtins, n
 
 CONTEXT_FILE = 'frappy/datatypes.py'
 SOURCES = ['frappy/datatypes.py', 'frappy/properties.py', 'frappy/lib/enum.py']
-DISPATCHED = ['InSet', 'Den', 'Conv', 'DenWire']
+DISPATCHED = ['InSet', 'Den', 'Conv', 'DenWire', 'DenConv', 'JsonKind', 'Exported', 'ConvW']
+DISPATCH_FALLBACK = {'DenWire': 'DenConv', 'Conv': 'InSet', 'DenConv': 'Den', 'ConvW': 'Conv'}
 INLINE = []
 
 ASSUMPTIONS = [
-    'A1 float arithmetic is real arithmetic (no rounding); overflow to +-inf, NaN propagation and unordered NaN are modelled',
+    'A1 float arithmetic is real arithmetic (no rounding); overflow to +-inf, NaN propagation and unordered NaN are modelled;'
+    ' the int->float conversion of `int + float` / `int - float` / float(int) rounds beyond 2**53 (some whole number within relative error 2**-53)',
     'A2 generalConfig.lazy_number_validation is False (its default)',
     'A3 logging never raises',
     'A4 dictionaries have string keys',
@@ -32,7 +34,23 @@ CLASSES = {
     'FloatRange': dict(fields={'min': 'float', 'max': 'float', 'absolute_resolution': 'float',
                                'relative_resolution': 'float', 'fmtstr': 'str', 'unit': 'str'}),
     'IntRange': dict(fields={'min': 'int', 'max': 'int'}),
+    'ScaledInteger': dict(fields={'scale': 'float', 'min': 'float', 'max': 'float', 'absolute_resolution': 'float',
+                                  'relative_resolution': 'float', 'fmtstr': 'str', 'unit': 'str'},
+                          inv=['self.scale > 0']),
+    'Enum': dict(fields={'members': 'tuple', 'name': 'str'}),
+    'EnumType': dict(fields={'_enum': 'Enum'}, inv=['inv(self._enum)']),
+    'BLOBType': dict(fields={'minbytes': 'int', 'maxbytes': 'int'}),
+    'StringType': dict(fields={'minchars': 'int', 'maxchars': 'int', 'isUTF8': 'bool'}),
+    'TextType': dict(fields={}),
+    'ArrayOf': dict(fields={'members': 'DataType', 'minlen': 'int', 'maxlen': 'int'}, inv=['inv(self.members)']),
+    'StructOf': dict(fields={'members': 'dict:DataType', 'optional': 'list:str'}),
+    'LimitsType': dict(fields={}),
+    'TupleOf': dict(fields={'members': 'tuple:DataType'},
+                    inv=['len(self.members) >= 1', 'all(inv(m) for m in self.members)']),
+    'BoolType': dict(fields={}),
 }
+
+UFS = {}
 
 
 # ---------------------------------------------------------------------------
@@ -70,14 +88,293 @@ def Den_FloatRange(self, result, offered):
         return result == (FMAX if offered > 0 else -FMAX) or result == self.min or result == self.max
     if not is_number(offered) and not is_enum(offered):
         return False
-    return result == offered or (abs(result - offered) <= prec_FloatRange(self, offered)
-                                 and (result == self.min or result == self.max))
+    # an int is converted to the nearest float (exact up to 2**53)
+    return result == as_float(offered) or (abs(result - as_float(offered)) <= prec_FloatRange(self, as_float(offered))
+                                           and (result == self.min or result == self.max))
+
+
+def ConvW_BLOBType(self, v):
+    # import_value only decodes; the length limits are checked by validate afterwards
+    return is_bytes(v)
+
+
+def ConvW_ArrayOf(self, v):
+    return is_tuple(v) and all(ConvW(self.members, x) for x in v)
+
+
+def ConvW_TupleOf(self, v):
+    return (is_tuple(v) and len(v) == len(self.members)
+            and all(ConvW(m, x) for m, x in zip(self.members, v)))
+
+
+def ConvW_StructOf(self, v):
+    return is_dict(v) and all(k in self.members for k in v) and all(ConvW(self.members[k], v[k]) for k in v)
 
 
 def DenConv_FloatRange(self, result, offered):
     if is_inf(offered):
         return result == (FMAX if offered > 0 else -FMAX)
-    return (is_number(offered) or is_enum(offered)) and result == offered
+    return (is_number(offered) or is_enum(offered)) and result == as_float(offered)
+
+
+def grid_ScaledInteger(self, x):
+    """nearest grid point (round half even), as the transported integer times scale"""
+    return round(x / self.scale) * self.scale
+
+
+def InSet_ScaledInteger(self, v):
+    return (is_finite_float(v) and on_grid(v, self.scale)
+            and grid_ScaledInteger(self, self.min) <= v <= grid_ScaledInteger(self, self.max))
+
+
+def Conv_ScaledInteger(self, v):
+    return is_inf(v) or (is_finite_float(v) and on_grid(v, self.scale))
+
+
+def Den_ScaledInteger(self, result, offered):
+    # the nearest grid point, or the limit when outside by less than one scale step (documented clamp)
+    if not (is_number(offered) or is_enum(offered)):
+        return False
+    lo = grid_ScaledInteger(self, self.min)
+    hi = grid_ScaledInteger(self, self.max)
+    return (abs(result - offered) <= self.scale / 2
+            or (result == lo and self.min - self.scale <= offered < lo)
+            or (result == hi and hi < offered <= self.max + self.scale))
+
+
+def DenConv_ScaledInteger(self, result, offered):
+    # nearest grid point; at the very edge of the float range the product overflows to infinity
+    if not (is_number(offered) or is_enum(offered)):
+        return False
+    if is_inf(result):
+        return abs(as_float(offered)) + self.scale > FMAX
+    return abs(result - as_float(offered)) <= self.scale / 2
+
+
+def DenWire_ScaledInteger(self, result, wire):
+    # the wire value must be a whole number (integer kind); the result is wire * scale
+    return is_whole(wire) and result == realnum(wire) * self.scale
+
+
+def InSet_EnumType(self, v):
+    e = self._enum
+    return (is_enum(v) and enum_owned(e, v) and enum_has_name(e, v.name) and enum_code(e, v.name) == v.value
+            and enum_has_code(e, v.value) and enum_name(e, v.value) == v.name)
+
+
+def Den_EnumType(self, result, offered):
+    if is_str(offered):
+        return result.name == offered
+    if is_enum(offered):
+        return result.value == offered.value
+    return is_number(offered) and num_eq(result.value, offered)
+
+
+def EnumFound(self, key):
+    """the keys an Enum (a dict of names and codes) finds: member names, and numbers equal to a code"""
+    if is_str(key):
+        return enum_has_name(self, key)
+    if is_enum(key):
+        return enum_has_code(self, key.value)
+    return is_number(key) and is_whole(key) and enum_has_code(self, int(key))
+
+
+def EnumLookup(self, key, result):
+    if is_str(key):
+        return same_object(result, mk_enum(self, key, enum_code(self, key)))
+    code = key.value if is_enum(key) else int(key)
+    return same_object(result, mk_enum(self, enum_name(self, code), code))
+
+
+def InSet_BLOBType(self, v):
+    return is_bytes(v) and self.minbytes <= len(v) <= self.maxbytes
+
+
+def Den_BLOBType(self, result, offered):
+    return is_bytes(offered) and result == offered
+
+
+def DenWire_BLOBType(self, result, wire):
+    return is_str(wire) and is_valid_b64(wire) and result == b64_bytes(wire)
+
+
+def InSet_StringType(self, v):
+    return (is_str(v) and self.minchars <= len(v) <= self.maxchars and '\0' not in v
+            and (self.isUTF8 or is_ascii(v)))
+
+
+def Den_StringType(self, result, offered):
+    return is_str(offered) and result == offered
+
+
+def InSet_BoolType(self, v):
+    return is_bool(v)
+
+
+def Den_BoolType(self, result, offered):
+    return (is_number(offered) or is_enum(offered)) and ((result and num_eq(offered, 1)) or (not result and num_eq(offered, 0)))
+
+
+def InSet_ArrayOf(self, v):
+    return is_tuple(v) and self.minlen <= len(v) <= self.maxlen and all(InSet(self.members, x) for x in v)
+
+
+def Conv_ArrayOf(self, v):
+    return is_tuple(v) and all(Conv(self.members, x) for x in v)
+
+
+def Den_ArrayOf(self, result, offered):
+    # same shape: a genuine sequence of the same length, element-wise the same values
+    return (is_seq(offered) and len(result) == len(offered)
+            and all(Den(self.members, r, o) for r, o in zip(result, offered)))
+
+
+def DenConv_ArrayOf(self, result, offered):
+    return (is_seq(offered) and len(result) == len(offered)
+            and all(DenConv(self.members, r, o) for r, o in zip(result, offered)))
+
+
+def DenWire_ArrayOf(self, result, wire):
+    return (is_list(wire) and len(result) == len(wire)
+            and all(DenWire(self.members, r, o) for r, o in zip(result, wire)))
+
+
+def InSet_TupleOf(self, v):
+    return (is_tuple(v) and len(v) == len(self.members)
+            and all(InSet(m, x) for m, x in zip(self.members, v)))
+
+
+def Conv_TupleOf(self, v):
+    return (is_tuple(v) and len(v) == len(self.members)
+            and all(Conv(m, x) for m, x in zip(self.members, v)))
+
+
+def Den_TupleOf(self, result, offered):
+    return (is_seq(offered) and len(result) == len(offered)
+            and all(Den(m, r, o) for m, r, o in zip(self.members, result, offered)))
+
+
+def DenConv_TupleOf(self, result, offered):
+    return (is_seq(offered) and len(result) == len(offered)
+            and all(DenConv(m, r, o) for m, r, o in zip(self.members, result, offered)))
+
+
+def DenWire_TupleOf(self, result, wire):
+    return (is_list(wire) and len(result) == len(wire)
+            and all(DenWire(m, r, o) for m, r, o in zip(self.members, result, wire)))
+
+
+def Shape_ArrayOf(self, value):
+    return is_seq(value) and self.minlen <= len(value) <= self.maxlen
+
+
+def Shape_TupleOf(self, value):
+    return is_seq(value) and len(value) == len(self.members)
+
+
+def DenWire_IntRange(self, result, wire):
+    return Den_IntRange(self, result, wire)
+
+
+def DenWire_FloatRange(self, result, wire):
+    return DenConv_FloatRange(self, result, wire)
+
+
+def DenWire_EnumType(self, result, wire):
+    return Den_EnumType(self, result, wire)
+
+
+def DenWire_StringType(self, result, wire):
+    return Den_StringType(self, result, wire)
+
+
+def DenWire_BoolType(self, result, wire):
+    return Den_BoolType(self, result, wire)
+
+
+def InSet_StructOf(self, v):
+    return (is_dict(v) and all(k in self.members for k in v)
+            and all(k in v for k in self.members if k not in self.optional)
+            and all(InSet(self.members[k], v[k]) for k in v))
+
+
+def Conv_StructOf(self, v):
+    return is_dict(v) and all(k in self.members for k in v) and all(Conv(self.members[k], v[k]) for k in v)
+
+
+def Den_StructOf(self, result, offered):
+    # the result agrees with the offer on every offered member (None stands for a missing key);
+    # members that were not offered come from the previous value (clause `merge` of StructOf.validate)
+    return (is_dict(offered)
+            and all(k in result and Den(self.members[k], result[k], offered[k]) for k in offered if offered[k] is not None))
+
+
+def DenConv_StructOf(self, result, offered):
+    return (is_dict(offered)
+            and all(k in result and DenConv(self.members[k], result[k], offered[k]) for k in offered if offered[k] is not None)
+            and all(k in offered and offered[k] is not None for k in result))
+
+
+def DenWire_StructOf(self, result, wire):
+    return (is_dict(wire) and all(k in result and DenWire(self.members[k], result[k], wire[k]) for k in wire)
+            and all(k in wire for k in result))
+
+
+def Merge_StructOf(self, result, offered, previous):
+    prev = previous if previous is not None else {}
+    return (all((k in offered and offered[k] is not None) or (k in prev and result[k] == prev[k]) for k in result)
+            and all(k in result for k in prev))
+
+
+def InSet_LimitsType(self, v):
+    return InSet_TupleOf(self, v) and v[0] <= v[1]
+
+
+# ---- C02: exported (wire) forms.  Exported(dt, v, w): w is the transport form of the valid value v
+def JsonKind_IntRange(self, w): return is_int(w)
+def Exported_IntRange(self, v, w): return is_int(w) and w == v
+
+
+def JsonKind_FloatRange(self, w): return is_finite_float(w)
+def Exported_FloatRange(self, v, w): return is_finite_float(w) and w == v
+
+
+def JsonKind_ScaledInteger(self, w): return is_int(w)
+def Exported_ScaledInteger(self, v, w): return is_int(w) and w * self.scale == v
+
+
+def JsonKind_EnumType(self, w): return is_int(w)
+def Exported_EnumType(self, v, w): return is_int(w) and w == v.value
+
+
+def JsonKind_BLOBType(self, w): return is_str(w)
+def Exported_BLOBType(self, v, w): return is_str(w) and is_valid_b64(w) and b64_bytes(w) == v
+
+
+def JsonKind_StringType(self, w): return is_str(w)
+def Exported_StringType(self, v, w): return is_str(w) and w == v
+
+
+def JsonKind_BoolType(self, w): return is_bool(w)
+def Exported_BoolType(self, v, w): return is_bool(w) and w == v
+
+
+def JsonKind_ArrayOf(self, w): return is_list(w) and all(JsonKind(self.members, x) for x in w)
+def Exported_ArrayOf(self, v, w):
+    return is_list(w) and len(w) == len(v) and all(Exported(self.members, x, y) for x, y in zip(v, w))
+
+
+def JsonKind_TupleOf(self, w):
+    return is_list(w) and len(w) == len(self.members) and all(JsonKind(m, x) for m, x in zip(self.members, w))
+def Exported_TupleOf(self, v, w):
+    return is_list(w) and len(w) == len(v) and all(Exported(m, x, y) for m, x, y in zip(self.members, v, w))
+
+
+def JsonKind_StructOf(self, w):
+    return is_dict(w) and all(is_str(k) and k in self.members and JsonKind(self.members[k], w[k]) for k in w)
+def Exported_StructOf(self, v, w):
+    return (is_dict(w) and all(k in v for k in w) and all(k in w for k in v)
+            and all(Exported(self.members[k], v[k], w[k]) for k in v))
 
 
 def ClampPost(_min, value, _max, result):
@@ -108,7 +405,7 @@ CONTRACTS = [
          serves=[], trusted_here=True, requires=[], ensures={'dict': 'is_dict(result)'}, raises='never',
          result_kind='dict'),
     # ------------------------------------------------------------- IntRange
-    dict(key='IntRange.__call__', file='frappy/datatypes.py', func='IntRange.__call__', serves=['C01'],
+    dict(key='IntRange.__call__', file='frappy/datatypes.py', func='IntRange.__call__', serves=['C01', 'C02'],
          self_type='IntRange',
          requires=['inv(self)'],
          ensures={'conv': 'Conv(self, result)', 'same': 'Den(self, result, value)'},
@@ -121,14 +418,14 @@ CONTRACTS = [
          requires=['inv(self)', 'previous is None or InSet(self, previous)'],
          ensures={'sound': 'InSet(self, result)', 'same': 'Den(self, result, value)'},
          raises={'badvalue': 'issubclass(exc, BadValueError)'},
-         lemmas={'idem': dict(requires=['InSet(self, value)', 'previous is None or py_eq(previous, value)'],
+         lemmas={'idem': dict(requires=['InSet(self, value)', 'previous is None or same_object(previous, value)'],
                               ensures={'unchanged': 'result == value and is_int(result)'}, raises='never')},
          witness="IntRange(F['min'], F['max'])"),
     # ----------------------------------------------------------- FloatRange
-    dict(key='FloatRange.__call__', file='frappy/datatypes.py', func='FloatRange.__call__', serves=['C01'],
+    dict(key='FloatRange.__call__', file='frappy/datatypes.py', func='FloatRange.__call__', serves=['C01', 'C02'],
          self_type='FloatRange',
          requires=['inv(self)'],
-         ensures={'conv': 'Conv(self, result)', 'same': 'DenConv_FloatRange(self, result, value)'},
+         ensures={'conv': 'Conv(self, result)', 'same': 'DenConv(self, result, value)'},
          raises={'badvalue': 'issubclass(exc, BadValueError)'},
          lemmas={'complete': dict(requires=['is_finite_float(value)'],
                                   ensures={'id': 'result == value and is_finite_float(result)'}, raises='never')},
@@ -139,13 +436,254 @@ CONTRACTS = [
          requires=['inv(self)', 'previous is None or InSet(self, previous)'],
          ensures={'sound': 'InSet(self, result)', 'same': 'Den(self, result, value)'},
          raises={'badvalue': 'issubclass(exc, BadValueError)'},
-         lemmas={'idem': dict(requires=['InSet(self, value)', 'previous is None or py_eq(previous, value)'],
+         lemmas={'idem': dict(requires=['InSet(self, value)', 'previous is None or same_object(previous, value)'],
                               ensures={'unchanged': 'result == value and is_finite_float(result)'}, raises='never')},
          witness="FloatRange(F['min'], F['max'], absolute_resolution=F['absolute_resolution'], "
                  "relative_resolution=F['relative_resolution'])"),
+    dict(key='IntRange.import_value', file='frappy/datatypes.py', func='DataType.import_value', serves=['C01', 'C02'],
+         self_type='IntRange', requires=['inv(self)', 'is_wire(value)'],
+         ensures={'conv': 'ConvW(self, result)', 'same': 'DenWire(self, result, value)'},
+         raises={'badvalue': 'issubclass(exc, BadValueError)'},
+         lemmas={'roundtrip': dict(requires=['InSet(self, v__)', 'Exported(self, v__, value)'], ensures={'back': 'same_value(result, v__)'}, raises='never', ghost_params={'v__': 'any'})},
+         witness="IntRange(F['min'], F['max'])"),
+    dict(key='FloatRange.import_value', file='frappy/datatypes.py', func='DataType.import_value', serves=['C01', 'C02'],
+         self_type='FloatRange', requires=['inv(self)', 'is_wire(value)'],
+         ensures={'conv': 'ConvW(self, result)', 'same': 'DenWire(self, result, value)'},
+         raises={'badvalue': 'issubclass(exc, BadValueError)'},
+         lemmas={'roundtrip': dict(requires=['InSet(self, v__)', 'Exported(self, v__, value)'], ensures={'back': 'same_value(result, v__)'}, raises='never', ghost_params={'v__': 'any'})},
+         witness="FloatRange(F['min'], F['max'])"),
+    # -------------------------------------------------------- ScaledInteger
+    dict(key='ScaledInteger.__call__', file='frappy/datatypes.py', func='ScaledInteger.__call__', serves=['C01', 'C02'],
+         self_type='ScaledInteger', requires=['inv(self)'],
+         ensures={'conv': 'Conv(self, result)', 'same': 'DenConv(self, result, value)'},
+         raises={'badvalue': 'issubclass(exc, BadValueError)'},
+         lemmas={'complete': dict(requires=['Conv(self, value) and abs(value) + self.scale <= FMAX'], ensures={'id': 'result == value'}, raises='never')},
+         witness="ScaledInteger(F['scale'], F['min'], F['max'])"),
+    dict(key='ScaledInteger.validate', file='frappy/datatypes.py', func='ScaledInteger.validate', serves=['C01'],
+         assume_no_float_overflow=True,
+         vc=False,   # mixed integer/real nonlinear arithmetic (3 grid roundings + clamp) exceeds the solver budget: bounded stand-in
+         self_type='ScaledInteger', requires=['inv(self)', 'previous is None or InSet(self, previous)', 'abs(self.min) + self.scale <= FMAX and abs(self.max) + self.scale <= FMAX'],
+         ensures={'sound': 'InSet(self, result)', 'same': 'Den(self, result, value)'},
+         raises={'badvalue': 'issubclass(exc, BadValueError)'},
+         lemmas={'idem': dict(requires=['InSet(self, value)', 'previous is None or same_object(previous, value)'],
+                              ensures={'unchanged': 'result == value'}, raises='never')},
+         witness="ScaledInteger(F['scale'], F['min'], F['max'])"),
+    dict(key='ScaledInteger.import_value', file='frappy/datatypes.py', func='ScaledInteger.import_value', serves=['C01', 'C02'],
+         self_type='ScaledInteger', requires=['inv(self)', 'is_wire(value)'],
+         ensures={'conv': 'ConvW(self, result)', 'same': 'DenWire(self, result, value)'},
+         raises={'badvalue': 'issubclass(exc, BadValueError)'},
+         lemmas={'roundtrip': dict(requires=['InSet(self, v__)', 'Exported(self, v__, value)'], ensures={'back': 'same_value(result, v__)'}, raises='never', ghost_params={'v__': 'any'})},
+         witness="ScaledInteger(F['scale'], F['min'], F['max'])"),
+    # ------------------------------------------------------------- EnumType
+    dict(key='EnumType.__call__', file='frappy/datatypes.py', func='EnumType.__call__', serves=['C01', 'C02'],
+         self_type='EnumType', requires=['inv(self)'],
+         ensures={'conv': 'Conv(self, result)', 'same': 'DenConv(self, result, value)'},
+         raises={'badvalue': 'issubclass(exc, BadValueError)'},
+         lemmas={'complete': dict(requires=['InSet(self, value)'], ensures={'id': 'same_object(result, value)'}, raises='never'),
+                 'found': dict(requires=['EnumFound(self._enum, value)'],
+                               ensures={'member': 'EnumLookup(self._enum, value, result)'}, raises='never')},
+         witness="EnumType('e', **F['members'])"),
+    dict(key='EnumType.validate', file='frappy/datatypes.py', func='DataType.validate', serves=['C01'],
+         self_type='EnumType', requires=['inv(self)', 'previous is None or InSet(self, previous)'],
+         ensures={'sound': 'InSet(self, result)', 'same': 'Den(self, result, value)'},
+         raises={'badvalue': 'issubclass(exc, BadValueError)'},
+         lemmas={'idem': dict(requires=['InSet(self, value)', 'previous is None or same_object(previous, value)'],
+                              ensures={'unchanged': 'result == value'}, raises='never')},
+         witness="EnumType('e', **F['members'])"),
+    dict(key='EnumType.import_value', file='frappy/datatypes.py', func='DataType.import_value', serves=['C01', 'C02'],
+         self_type='EnumType', requires=['inv(self)', 'is_wire(value)'],
+         ensures={'conv': 'ConvW(self, result)', 'same': 'DenWire(self, result, value)'},
+         raises={'badvalue': 'issubclass(exc, BadValueError)'},
+         lemmas={'roundtrip': dict(requires=['InSet(self, v__)', 'Exported(self, v__, value)'], ensures={'back': 'same_value(result, v__)'}, raises='never', ghost_params={'v__': 'any'})},
+         witness="EnumType('e', **F['members'])"),
+    # ------------------------------------------------------------- BLOBType
+    dict(key='BLOBType.__call__', file='frappy/datatypes.py', func='BLOBType.__call__', serves=['C01', 'C02'],
+         self_type='BLOBType', requires=['inv(self)'],
+         ensures={'conv': 'Conv(self, result)', 'same': 'DenConv(self, result, value)'},
+         raises={'badvalue': 'issubclass(exc, BadValueError)'},
+         lemmas={'complete': dict(requires=['InSet(self, value)'], ensures={'id': 'result == value'}, raises='never')},
+         witness="BLOBType(F['minbytes'], F['maxbytes'])"),
+    dict(key='BLOBType.validate', file='frappy/datatypes.py', func='DataType.validate', serves=['C01'],
+         self_type='BLOBType', requires=['inv(self)', 'previous is None or InSet(self, previous)'],
+         ensures={'sound': 'InSet(self, result)', 'same': 'Den(self, result, value)'},
+         raises={'badvalue': 'issubclass(exc, BadValueError)'},
+         lemmas={'idem': dict(requires=['InSet(self, value)', 'previous is None or same_object(previous, value)'],
+                              ensures={'unchanged': 'result == value'}, raises='never')},
+         witness="BLOBType(F['minbytes'], F['maxbytes'])"),
+    dict(key='BLOBType.import_value', file='frappy/datatypes.py', func='BLOBType.import_value', serves=['C01', 'C02'],
+         self_type='BLOBType', requires=['inv(self)', 'is_wire(value)'],
+         ensures={'conv': 'ConvW(self, result)', 'same': 'DenWire(self, result, value)'},
+         raises={'badvalue': 'issubclass(exc, BadValueError)'},
+         lemmas={'roundtrip': dict(requires=['InSet(self, v__)', 'Exported(self, v__, value)'], ensures={'back': 'same_value(result, v__)'}, raises='never', ghost_params={'v__': 'any'})},
+         witness="BLOBType(F['minbytes'], F['maxbytes'])"),
+    # ----------------------------------------------------------- StringType
+    dict(key='StringType.__call__', file='frappy/datatypes.py', func='StringType.__call__', serves=['C01', 'C02'],
+         self_type='StringType', requires=['inv(self)'],
+         ensures={'conv': 'Conv(self, result)', 'same': 'DenConv(self, result, value)'},
+         raises={'badvalue': 'issubclass(exc, BadValueError)'},
+         lemmas={'complete': dict(requires=['InSet(self, value)'], ensures={'id': 'result == value'}, raises='never')},
+         witness="StringType(F['minchars'], F['maxchars'], isUTF8=F['isUTF8'])"),
+    dict(key='StringType.validate', file='frappy/datatypes.py', func='DataType.validate', serves=['C01'],
+         self_type='StringType', requires=['inv(self)', 'previous is None or InSet(self, previous)'],
+         ensures={'sound': 'InSet(self, result)', 'same': 'Den(self, result, value)'},
+         raises={'badvalue': 'issubclass(exc, BadValueError)'},
+         lemmas={'idem': dict(requires=['InSet(self, value)', 'previous is None or same_object(previous, value)'],
+                              ensures={'unchanged': 'result == value'}, raises='never')},
+         witness="StringType(F['minchars'], F['maxchars'], isUTF8=F['isUTF8'])"),
+    dict(key='StringType.import_value', file='frappy/datatypes.py', func='DataType.import_value', serves=['C01', 'C02'],
+         self_type='StringType', requires=['inv(self)', 'is_wire(value)'],
+         ensures={'conv': 'ConvW(self, result)', 'same': 'DenWire(self, result, value)'},
+         raises={'badvalue': 'issubclass(exc, BadValueError)'},
+         lemmas={'roundtrip': dict(requires=['InSet(self, v__)', 'Exported(self, v__, value)'], ensures={'back': 'same_value(result, v__)'}, raises='never', ghost_params={'v__': 'any'})},
+         witness="StringType(F['minchars'], F['maxchars'], isUTF8=F['isUTF8'])"),
+    # ------------------------------------------------------------- BoolType
+    dict(key='BoolType.__call__', file='frappy/datatypes.py', func='BoolType.__call__', serves=['C01', 'C02'],
+         self_type='BoolType', requires=['inv(self)'],
+         ensures={'conv': 'Conv(self, result)', 'same': 'DenConv(self, result, value)'},
+         raises={'badvalue': 'issubclass(exc, BadValueError)'},
+         lemmas={'complete': dict(requires=['InSet(self, value)'], ensures={'id': 'result == value'}, raises='never')},
+         witness='BoolType()'),
+    dict(key='BoolType.validate', file='frappy/datatypes.py', func='DataType.validate', serves=['C01'],
+         self_type='BoolType', requires=['inv(self)', 'previous is None or InSet(self, previous)'],
+         ensures={'sound': 'InSet(self, result)', 'same': 'Den(self, result, value)'},
+         raises={'badvalue': 'issubclass(exc, BadValueError)'},
+         lemmas={'idem': dict(requires=['InSet(self, value)', 'previous is None or same_object(previous, value)'],
+                              ensures={'unchanged': 'result == value'}, raises='never')},
+         witness='BoolType()'),
+    dict(key='BoolType.import_value', file='frappy/datatypes.py', func='DataType.import_value', serves=['C01', 'C02'],
+         self_type='BoolType', requires=['inv(self)', 'is_wire(value)'],
+         ensures={'conv': 'ConvW(self, result)', 'same': 'DenWire(self, result, value)'},
+         raises={'badvalue': 'issubclass(exc, BadValueError)'},
+         lemmas={'roundtrip': dict(requires=['InSet(self, v__)', 'Exported(self, v__, value)'], ensures={'back': 'same_value(result, v__)'}, raises='never', ghost_params={'v__': 'any'})},
+         witness='BoolType()'),
+    # Enum: a dict holding every member under its name and under its code (assumed view contract,
+    # validated by the bounded tier against frappy.lib.enum.Enum)
+    dict(key='Enum.__getitem__', file='frappy/lib/enum.py', func='Enum.__call__', signature='self, key', serves=[],
+         trusted=True, self_type='Enum', requires=['inv(self)'],
+         ensures={'member': 'EnumFound(self, key) and EnumLookup(self, key, result)'},
+         raises={'kind': 'issubclass(exc, KeyError) or issubclass(exc, TypeError)',
+                 'typeerror': 'implies(issubclass(exc, TypeError), is_list(key) or is_dict(key) or is_set(key))',
+                 'keyerror': 'implies(issubclass(exc, KeyError), not (is_list(key) or is_dict(key) or is_set(key)))'},
+         lemmas={'found': dict(requires=['EnumFound(self, key)'], ensures={}, raises='never')}),
+    # ---------------------------------------------------------- interface contracts of an abstract member datatype
+    # (behavioural subtyping: every concrete class above/below is verified against the same clauses)
+    dict(key='iface::DataType.validate', file=None, func=None, signature='self, value, previous=None', serves=[], trusted=True,
+         requires=['inv(self)', 'previous is None or InSet(self, previous)'],
+         ensures={'sound': 'InSet(self, result)', 'same': 'Den(self, result, value)'},
+         raises={'badvalue': 'issubclass(exc, BadValueError)'},
+         lemmas={'idem': dict(requires=['InSet(self, value)', 'previous is None or same_object(previous, value)'],
+                              ensures={'unchanged': 'same_object(result, value)'}, raises='never')}),
+    dict(key='iface::DataType.__call__', file=None, func=None, signature='self, value', serves=[], trusted=True,
+         requires=['inv(self)'],
+         ensures={'conv': 'Conv(self, result)', 'same': 'DenConv(self, result, value)'},
+         raises={'badvalue': 'issubclass(exc, BadValueError)'},
+         lemmas={'complete': dict(requires=['InSet(self, value)'], ensures={'id': 'same_object(result, value)'}, raises='never')}),
+    dict(key='iface::DataType.import_value', file=None, func=None, signature='self, value', serves=[], trusted=True,
+         requires=['inv(self)', 'is_wire(value)'],
+         ensures={'conv': 'ConvW(self, result)', 'same': 'DenWire(self, result, value)'},
+         raises={'badvalue': 'issubclass(exc, BadValueError)'},
+         lemmas={'roundtrip': dict(requires=['InSet(self, v__)', 'Exported(self, v__, value)'], ensures={'back': 'same_value(result, v__)'}, raises='never', ghost_params={'v__': 'any'})}),
+    # ------------------------------------------------------------- ArrayOf
+    dict(key='ArrayOf.check_type', file='frappy/datatypes.py', func='ArrayOf.check_type', serves=['C01'],
+         self_type='ArrayOf', requires=['inv(self)'], assumes=['in_universe(value)'],
+         ensures={'shape': 'Shape_ArrayOf(self, value)', 'none': 'result is None'},
+         raises={'badvalue': 'issubclass(exc, BadValueError)'},
+         lemmas={'complete': dict(requires=['Shape_ArrayOf(self, value)'], ensures={}, raises='never')},
+         witness="ArrayOf(MEMBER, F['minlen'], F['maxlen'])"),
+    dict(key='ArrayOf.__call__', file='frappy/datatypes.py', func='ArrayOf.__call__', serves=['C01'],
+         self_type='ArrayOf', requires=['inv(self)'], assumes=['in_universe(value)'],
+         ensures={'conv': 'Conv(self, result)', 'same': 'DenConv(self, result, value)'},
+         raises={'badvalue': 'issubclass(exc, BadValueError)'},
+         lemmas={'complete': dict(requires=['InSet(self, value)'], ensures={'id': 'seq_eq(result, value)'}, raises='never')},
+         witness="ArrayOf(MEMBER, F['minlen'], F['maxlen'])"),
+    dict(key='ArrayOf.validate', file='frappy/datatypes.py', func='ArrayOf.validate', serves=['C01'],
+         self_type='ArrayOf', requires=['inv(self)', 'previous is None or InSet(self, previous)'], assumes=['in_universe(value)'],
+         ensures={'sound': 'InSet(self, result)', 'same': 'Den(self, result, value)'},
+         raises={'badvalue': 'issubclass(exc, BadValueError)'},
+         lemmas={'idem': dict(requires=['InSet(self, value)', 'previous is None or same_object(previous, value)'],
+                              ensures={'unchanged': 'seq_eq(result, value)'}, raises='never')},
+         witness="ArrayOf(MEMBER, F['minlen'], F['maxlen'])"),
+    dict(key='ArrayOf.import_value', file='frappy/datatypes.py', func='ArrayOf.import_value', serves=['C01', 'C02'],
+         self_type='ArrayOf', requires=['inv(self)', 'is_wire(value)'],
+         ensures={'conv': 'ConvW(self, result)', 'same': 'DenWire(self, result, value)'},
+         raises={'badvalue': 'issubclass(exc, BadValueError)'},
+         lemmas={'roundtrip': dict(requires=['InSet(self, v__)', 'Exported(self, v__, value)'], ensures={'back': 'same_value(result, v__)'}, raises='never', ghost_params={'v__': 'any'})},
+         witness="ArrayOf(MEMBER, F['minlen'], F['maxlen'])"),
+    # ------------------------------------------------------------- TupleOf
+    dict(key='TupleOf.check_type', file='frappy/datatypes.py', func='TupleOf.check_type', serves=['C01'],
+         self_type='TupleOf', requires=['inv(self)'], assumes=['in_universe(value)'],
+         ensures={'shape': 'Shape_TupleOf(self, value)', 'none': 'result is None'},
+         raises={'badvalue': 'issubclass(exc, BadValueError)'},
+         lemmas={'complete': dict(requires=['Shape_TupleOf(self, value)'], ensures={}, raises='never')},
+         witness='TupleOf(*MEMBERS)'),
+    dict(key='TupleOf.__call__', file='frappy/datatypes.py', func='TupleOf.__call__', serves=['C01'],
+         self_type='TupleOf', requires=['inv(self)'], assumes=['in_universe(value)'],
+         ensures={'conv': 'Conv(self, result)', 'same': 'DenConv(self, result, value)'},
+         raises={'badvalue': 'issubclass(exc, BadValueError)'},
+         lemmas={'complete': dict(requires=['InSet(self, value)'], ensures={'id': 'seq_eq(result, value)'}, raises='never')},
+         witness='TupleOf(*MEMBERS)'),
+    dict(key='TupleOf.validate', file='frappy/datatypes.py', func='TupleOf.validate', serves=['C01'],
+         self_type='TupleOf', requires=['inv(self)', 'previous is None or InSet(self, previous)'], assumes=['in_universe(value)'],
+         ensures={'sound': 'InSet(self, result)', 'same': 'Den(self, result, value)'},
+         raises={'badvalue': 'issubclass(exc, BadValueError)'},
+         lemmas={'idem': dict(requires=['InSet(self, value)', 'previous is None or same_object(previous, value)'],
+                              ensures={'unchanged': 'seq_eq(result, value)'}, raises='never')},
+         witness='TupleOf(*MEMBERS)'),
+    dict(key='TupleOf.import_value', file='frappy/datatypes.py', func='TupleOf.import_value', serves=['C01', 'C02'],
+         self_type='TupleOf', requires=['inv(self)', 'is_wire(value)'],
+         ensures={'conv': 'ConvW(self, result)', 'same': 'DenWire(self, result, value)'},
+         raises={'badvalue': 'issubclass(exc, BadValueError)'},
+         lemmas={'roundtrip': dict(requires=['InSet(self, v__)', 'Exported(self, v__, value)'], ensures={'back': 'same_value(result, v__)'}, raises='never', ghost_params={'v__': 'any'})},
+         witness='TupleOf(*MEMBERS)'),
+    dict(key='IntRange.export_value', file='frappy/datatypes.py', func='IntRange.export_value', serves=['C02'],
+         self_type='IntRange', requires=['inv(self)', 'InSet(self, value)'],
+         ensures={'kind': 'JsonKind(self, result)', 'form': 'Exported(self, value, result)'},
+         raises='never', witness="IntRange(F['min'], F['max'])"),
+    dict(key='FloatRange.export_value', file='frappy/datatypes.py', func='FloatRange.export_value', serves=['C02'],
+         self_type='FloatRange', requires=['inv(self)', 'InSet(self, value)'],
+         ensures={'kind': 'JsonKind(self, result)', 'form': 'Exported(self, value, result)'},
+         raises='never', witness="FloatRange(F['min'], F['max'])"),
+    dict(key='ScaledInteger.export_value', file='frappy/datatypes.py', func='ScaledInteger.export_value', serves=['C02'],
+         self_type='ScaledInteger', requires=['inv(self)', 'InSet(self, value)'], assume_no_float_overflow=True,
+         ensures={'kind': 'JsonKind(self, result)', 'form': 'Exported(self, value, result)'},
+         raises='never', witness="ScaledInteger(F['scale'], F['min'], F['max'])"),
+    dict(key='EnumType.export_value', file='frappy/datatypes.py', func='EnumType.export_value', serves=['C02'],
+         self_type='EnumType', requires=['inv(self)', 'InSet(self, value)'],
+         ensures={'kind': 'JsonKind(self, result)', 'form': 'Exported(self, value, result)'},
+         raises='never', witness="EnumType('e', **F['members'])"),
+    dict(key='BLOBType.export_value', file='frappy/datatypes.py', func='BLOBType.export_value', serves=['C02'],
+         self_type='BLOBType', requires=['inv(self)', 'InSet(self, value)'],
+         ensures={'kind': 'JsonKind(self, result)', 'form': 'Exported(self, value, result)'},
+         raises='never', witness="BLOBType(F['minbytes'], F['maxbytes'])"),
+    dict(key='StringType.export_value', file='frappy/datatypes.py', func='StringType.export_value', serves=['C02'],
+         self_type='StringType', requires=['inv(self)', 'InSet(self, value)'],
+         ensures={'kind': 'JsonKind(self, result)', 'form': 'Exported(self, value, result)'},
+         raises='never', witness="StringType(F['minchars'], F['maxchars'], isUTF8=F['isUTF8'])"),
+    dict(key='BoolType.export_value', file='frappy/datatypes.py', func='BoolType.export_value', serves=['C02'],
+         self_type='BoolType', requires=['inv(self)', 'InSet(self, value)'],
+         ensures={'kind': 'JsonKind(self, result)', 'form': 'Exported(self, value, result)'},
+         raises='never', witness='BoolType()'),
+    dict(key='ArrayOf.export_value', file='frappy/datatypes.py', func='ArrayOf.export_value', serves=['C02'],
+         self_type='ArrayOf', requires=['inv(self)', 'InSet(self, value)'],
+         ensures={'kind': 'JsonKind(self, result)', 'form': 'Exported(self, value, result)'},
+         raises='never', witness="ArrayOf(MEMBER, F['minlen'], F['maxlen'])"),
+    dict(key='TupleOf.export_value', file='frappy/datatypes.py', func='TupleOf.export_value', serves=['C02'],
+         self_type='TupleOf', requires=['inv(self)', 'InSet(self, value)'],
+         ensures={'kind': 'JsonKind(self, result)', 'form': 'Exported(self, value, result)'},
+         raises='never', witness='TupleOf(*MEMBERS)'),
+    dict(key='iface::DataType.export_value', file=None, func=None, signature='self, value', serves=[], trusted=True,
+         requires=['inv(self)', 'InSet(self, value)'],
+         ensures={'kind': 'JsonKind(self, result)', 'form': 'Exported(self, value, result)'}, raises='never'),
 ]
 
 LOOPS = {}
+
+# concrete member types tried when a counter-model over an abstract member datatype is replayed
+CATALOGUE = ['IntRange(-5, 5)', 'FloatRange(-5.0, 5.0)', 'StringType(0, 3)', 'BoolType()', 'BLOBType(0, 3)',
+             "EnumType('e', a=1, b=2)", 'ScaledInteger(0.5, -5, 5)', 'ArrayOf(IntRange(0, 3), 0, 2)',
+             'TupleOf(IntRange(0, 3), BoolType())', 'StructOf(a=IntRange(0, 3), b=StringType(0, 3), optional=["b"])',
+             'IntRange(0, 2 ** 62)', 'FloatRange()', 'StringType()']
+
 
 
 # native dispatchers (the VC generator has its own dispatch rule: <name>_<static class>, else uninterpreted)
@@ -153,4 +691,8 @@ InSet = make_dispatcher('InSet')
 Den = make_dispatcher('Den')
 Conv = make_dispatcher('Conv')
 DenWire = make_dispatcher('DenWire')
+DenConv = make_dispatcher('DenConv')
+ConvW = make_dispatcher('ConvW')
+JsonKind = make_dispatcher('JsonKind')
+Exported = make_dispatcher('Exported')
 register(globals())
